@@ -5,6 +5,14 @@ HERE = os.path.dirname(os.path.dirname(os.path.abspath(__file__)))
 props = [json.loads(l) for l in open(os.path.join(HERE, "properties.jsonl"))]
 
 CHECKS = {
+ "C11": dict(
+   text="For all import lists, rule lists (any mix of global/private/disabled rules over any namespaces), flag words and callback scripts (nat->answer), the Gallina model of set_flags + module loading + OP_INIT_RULE/OP_MATCH_RULE bitmaps + the report loop of scanner.c delivers exactly the declarative message list `modules ++ expected ++ [finished]` cut right after the first stopping answer (protocol_is_cut_of_full_list); each_nonprivate_once_in_order, private_never, finished_last_iff_not_aborted, matching_iff_cond_and_globals, import_pair_once_per_module, abort_stops_with_success, error_stops_with_callback_error, module_error_fails_scan are corollaries. Tie: traces, return codes and the rule_matches_flags/ns_unsatisfied_flags bitmaps of the real library are compared with the extracted model for generated rule sets (exhaustive <= 2 rules, random with imports/disabled rules/rule references) x all 4 flag settings x abort/error at every message index.",
+   note="Trusted: Coq kernel, extraction, harness h_proto. Not modelled: console.log, TOO_MANY_MATCHES / TOO_SLOW_SCANNING messages, module load failures, timeouts. The library ignores CALLBACK_ABORT in response to module messages; the model says so and the property does not claim otherwise.",
+   technique="Coq proof over executable protocol model + trace/bitmap correspondence", ref="DESIGN.md 4 C11"),
+ "C13": dict(
+   text="resume_equivalent / resume_result_is_each_block_once: for every block list, file-size function and every not-ready pattern allowed by docs/capi.rst (not-ready at arbitrary calls of the first full iteration, including first()), repeating the call gives exactly the uninterrupted result = every block scanned once in order, after exactly 1 + #not-ready calls, with the scanner clean; entry_points_agree: mem / file / fd at rules and scanner level and a single-block iterator give the same result; both for any abstract per-block matcher. Tie: all partitions of small buffers into <= 4 blocks x all not-ready bit strings (exhaustive), compared per call (return code, first()/next() call log) and at the end (callbacks, match offsets); follow-up scans on the same scanner; patterns outside the contract; 8 entry points x buffers incl. empty and page-aligned ones.",
+   note="Per-block string matching and rule evaluation are abstract in the theorems. mmap/open of filemap.c are exercised, not modelled. Not-ready during the re-iteration done by rule evaluation is explored against the model, not covered by the theorem.",
+   technique="Coq proof over resumable-scanner model + exhaustive small-scope correspondence", ref="DESIGN.md 4 C13"),
  "C04": dict(
    text="Spec/CondSpec.v is the documented three-valued semantics of conditions (string presence/count/offset/length, at/in, of, for..of/for..in with any quantifier, integer arithmetic/bitwise/shift/comparison, boolean operators, intN/uintN readers, filesize, earlier rules, integer externals, defined). Theorems over models regenerated from the sources on every run: grammar.y's precedence/associativity declarations equal the manual's table; every integer VM case yields undefined for an undefined operand; and/or treat undefined as false, not propagates it; each integer opcode computes the documented operator (C12's theorem). Tie: the extracted evaluator (over the C01 reference match sets) is compared with the real compiler+scanner on random typed condition trees of depth <= 5 with up to 3 nested loops, printed with minimal parentheses, 1-3 rules per set, externals at INT64 extremes, reads past the end, out-of-range indexes.",
    note="Trusted: Coq kernel, extraction, translators (genfold/cexpr/GenPrec), harness. Not proved: that the bytecode emitted for a condition computes the evaluator's value (no model compiler yet) - that part is correspondence only. Floats, string operators (contains, matches, ...) and module calls are not in the fragment. Known finding: an undefined numeric quantifier acts as 'all'.",
